@@ -323,7 +323,7 @@ fn read_tree(dir: &std::path::Path, out: &mut Vec<(String, u64)>, root: &std::pa
 }
 
 fn environment_part(rep: &mut Report) {
-    let scc = std::path::PathBuf::from("/verif/engine/target/scc/release/scc");
+    let scc = scc_path();
     if !scc.exists() {
         rep.notes.push("scc binary not built; the environment part was not exercised".into());
         return;
